@@ -352,6 +352,10 @@ func e2ePayload(kind, seq int) (typ string, data []string) {
 	if kind%3 == 1 {
 		typ = "t" + fmt.Sprint(seq%3)
 	}
+	if seq%7 == 5 {
+		// the reserved names: an event type is a name like any other
+		typ = []string{"message", "Message", "open", "error"}[seq/7%4]
+	}
 	base := e2ePayloads[kind%len(e2ePayloads)]
 	data = append([]string{}, base...)
 	if kind >= 100 { // a long event, so that cuts fall inside events and bodies span several reads
